@@ -182,7 +182,7 @@ def guardTable : List ((String × String × Nat) × String) := [
   (("pkg/filters/kafka/kafka.go", "Kafka.setProducer", 1), "not-covered: kind outside the first wave (external system or MQTT-only); no harness case instantiates it"),
   (("pkg/filters/kafkabackend/kafka.go", "Kafka.setHeader", 1), "not-covered: kind outside the first wave (external system or MQTT-only); no harness case instantiates it"),
   (("pkg/filters/kafkabackend/kafka.go", "Kafka.Init", 1), "not-covered: kind outside the first wave (external system or MQTT-only); no harness case instantiates it"),
-  (("pkg/filters/proxy/loadbalance.go", "WeightedRandomLoadBalancer.ChooseServer", 1), "allow: BUG site, unreachable when totalWeight > 0; the reachable hazard is rand.Intn(totalWeight <= 0) = guard poolHandleOK (known finding, C04)"),
+  (("pkg/filters/proxy/loadbalance.go", "WeightedRandomLoadBalancer.ChooseServer", 1), "allow: BUG site, unreachable: past the early return totalWeight is the positive sum of the positive weights the loop subtracts (repair 7c1d2bb, proved under C04); rand.Intn is only called with a positive argument"),
   (("pkg/filters/proxy/pool.go", "ServerPool.InjectResiliencePolicy", 4), "guard: poolInjectOK (known finding Proxy.retryPolicy / Proxy.circuitBreakerPolicy)"),
   (("pkg/filters/proxy/pool.go", "ServerPool.handle", 1), "allow: BUG site, the wrapped handler only returns nil, ErrShortCircuited or a serverPoolError"),
   (("pkg/filters/proxy/requestmatch.go", "StringMatcher.init", 1), "guard: smInitOK (regexp.MustCompile guarded by format=regexp)"),
